@@ -210,6 +210,14 @@ theorem buffer_bounded_all_operations {B K : Nat} (hE : EnvOK env G) (sh : Share
   obtain ⟨e', h, hi, hw'⟩ := within1_run_linked hE ops _ (initial_safe sh hg hcom hpp hsym) hw hv (thrOp_of_thrLe ht)
   exact ⟨e', h, hi, hw', hw'.len, Nat.le_trans hw'.len (cap1_le B _)⟩
 
+/-- the hypotheses of `buffer_bounded_all_operations` are satisfiable (simple engine, limit 0: the configuration of the
+    old FX4 witness) — EVERY history of valid operations that never raises the limit ends with at most 1 symbol -/
+example (ops : List (Op Nat)) (hv : ∀ op ∈ ops, OpValid op) (ht : ThrLe 0 ops) :
+    ∃ e', (simpleEditor 0).run toyEnv ops = .ok e' ∧ e'.shared.com.len ≤ 0 + 1 :=
+  have ⟨e', h, _, _, _, hl⟩ := buffer_bounded_all_operations (K := 0) toyEnv_ok (simpleEditor 0).shared trivial rfl
+    (by show (0 : Nat) < 10; omega) symWF_empty ⟨Nat.le_refl _, fun p hp => by cases hp⟩ ops hv ht
+  ⟨e', h, hl⟩
+
 /-- **the property as one would word it holds** (it was refuted before the repair, by keys alone:
     `bounded_everywhere_full_refuted` of round 2, now `fuzzy_history_repaired`) -/
 theorem bounded_everywhere_full : BoundedEverywhereFull := by
